@@ -267,14 +267,18 @@ def ops_from_json(j):
     return [fix(o) for o in j["ops"]]
 
 
-def load_corpus(prop):
+def load_corpus(prop, world="struct"):
+    """the witnesses of corpus/<prop>/ written in the operations of `world` ("struct": structworld.Live, the default;
+    "items": itemworld.World)"""
     import os
     d = os.path.join(core.CORPUS_DIR, prop)
     out = []
     if os.path.isdir(d):
         for f in sorted(os.listdir(d)):
             if f.endswith(".json"):
-                out.append(ops_from_json(json.load(open(os.path.join(d, f)))))
+                j = json.load(open(os.path.join(d, f)))
+                if j.get("world", "struct") == world:
+                    out.append(ops_from_json(j) if world == "struct" else j["ops"])
     return out
 
 
@@ -471,8 +475,16 @@ def gen_space_formula(rng, live, path, s):
 CLASH = [W.CHILD[0], W.CELLS[0], W.REFS[0], W.MREFS[1]]     # "X", "f", "r", "u": one small alphabet for every kind of name
 
 
-def clash_prefix(rng):
-    """a few spaces (chain, diamond or siblings, one of them with a child) to start a name-clash history"""
+def clash_prefix(rng, cfg=None):
+    """a few spaces (chain, diamond or siblings, one of them with a child) to start a name-clash history;
+    cfg["clash_wide"]: mostly one base with SEVERAL sub spaces (siblings, a chain below one of them), so that
+    what an edit of the base does to an earlier sub space and what it meets in a later one are different things"""
+    if cfg and cfg.get("clash_wide") and rng.random() < 0.7:
+        ops = [["new_space", "-", "A", []], ["new_space", "-", "B", ["A"]], ["new_space", "-", "C", ["A"]],
+               ["new_space", "-", "D", rng.choice([["A"], ["B"], ["C"], ["B", "C"], ["C", "B"], []])]]
+        if rng.random() < 0.3:
+            ops.append(["new_space", rng.choice(["A", "B", "C", "D"]), rng.choice(CLASH), []])
+        return ops
     ops = [["new_space", "-", "A", []], ["new_space", "-", "B", rng.choice([[], ["A"]])],
            ["new_space", "-", "C", rng.choice([[], ["A"], ["B"], ["A", "B"], ["B", "A"]])]]
     if rng.random() < 0.6:
@@ -492,6 +504,10 @@ def gen_clash(rng, live, cfg, prev=None, focus=None):
     paths = [p for p, _ in spaces]
     if not paths:
         return ["new_space", "-", rng.choice(W.TOP), []]
+    if cfg.get("clash_wide") and prev:
+        nxt = clash_followup(rng, live, prev, paths)
+        if nxt is not None:
+            return nxt
     path, s = rng.choice(spaces)
     cells = list(s.cells)
     k = rng.choices(["new_space", "del_space", "new_cells", "set_formula", "del_cells", "rename_cells", "add_bases",
@@ -574,6 +590,109 @@ def gen_clash(rng, live, cfg, prev=None, focus=None):
     return ["set_mref", rng.choice(CLASH), rng.randint(10, 19)]
 
 
+REQUESTS = ("set_ref", "new_cells", "new_space", "rename_cells", "add_bases")
+FOLLOW = "q"        # a name outside the clash alphabet: a member created and deleted again only to re-derive the sub spaces
+
+
+def clash_followup(rng, live, prev, paths):
+    """cfg["clash_wide"]: after a request for a name (accepted or refused - the generator does not know), edits of
+    the SAME space that only re-derive its sub spaces: an unrelated cells or reference is created and deleted again,
+    or an unrelated one is deleted.  A refused request that left something behind shows in the sub spaces then."""
+    last = prev[-1]
+    where = last[1]         # the space that was asked (for new_space: the parent; "-" is not a space)
+    if last[0] == "new_cells" and last[2] == FOLLOW:
+        return ["del_cells", last[1], FOLLOW] if rng.random() < 0.85 else None
+    if last[0] == "set_ref" and last[2] == FOLLOW:
+        return ["del_ref", last[1], FOLLOW] if rng.random() < 0.85 else None
+    if last[0] in REQUESTS and where in paths and rng.random() < 0.3:
+        s = live.space(where)
+        if FOLLOW in s.cells or FOLLOW in s._own_refs or FOLLOW in s.spaces:
+            return None
+        return ["new_cells", where, FOLLOW, F(0, 1)] if rng.random() < 0.6 else ["set_ref", where, FOLLOW, 1]
+    return None
+
+
+# ----------------------------------------------------------------------------- scenario family: refusals decided in a sub space
+#
+# Whether a member may be created in a space is decided by what the space AND every space deriving from it
+# use the name for.  When the space has several sub spaces, the answer may come from a later one while an
+# earlier one (and the space itself) would take the member - a refusal that is not decided before anything
+# is changed leaves the base and the earlier sub spaces changed (C11), and the next re-derivation puts the
+# member next to the one of another kind in the later sub space (C12).  The family enumerates
+# (shape of the sub spaces) x (which one holds the name, as which kind) x (a model-level reference of the name:
+# none / created before the member where that is allowed / created AFTER it) x (an earlier sub space holds an
+# own reference of the name or not) x (kind arriving in the base, and how), each followed by edits of the base
+# that only re-derive its sub spaces.  The oracles are the properties' own hooks; nothing about "must be
+# refused" is asserted.
+
+FAMILY_SHAPES = [
+    ("two siblings", [["new_space", "-", "B", ["A"]], ["new_space", "-", "C", ["A"]]], ["B", "C"]),
+    ("three siblings", [["new_space", "-", "B", ["A"]], ["new_space", "-", "C", ["A"]], ["new_space", "-", "D", ["A"]]],
+     ["C", "D"]),
+    ("chain", [["new_space", "-", "B", ["A"]], ["new_space", "-", "C", ["B"]]], ["B", "C"]),
+    ("diamond", [["new_space", "-", "B", ["A"]], ["new_space", "-", "C", ["A"]], ["new_space", "-", "D", ["B", "C"]]],
+     ["C", "D"]),
+]
+
+
+def family_member(kind, space, name, k=1):
+    if kind == "cells":
+        return ["new_cells", space, name, F(0, k)]
+    if kind == "ref":
+        return ["set_ref", space, name, 3 + k]
+    return ["new_space", space, name, []]
+
+
+def refusal_family():
+    """[(label, ops)]: A is the base that is asked for the name `x`"""
+    out = []
+    x = "x"
+    rederive = [["new_cells", "A", FOLLOW, F(0, 2)], ["del_cells", "A", FOLLOW], ["set_ref", "A", "y", 3], ["del_ref", "A", "y"]]
+    for shape, subs, holders in FAMILY_SHAPES:
+        for holder in holders:
+            for k1 in ("cells", "space", "ref"):
+                for glob in ("none", "after", "before"):
+                    if glob == "before" and k1 != "ref":
+                        continue        # a cells / child space named like a model-level reference is refused anyway
+                    for also in (False, True):
+                        if also and (k1 == "ref" or holder == subs[0][2]):
+                            continue
+                        pre = [["new_space", "-", "A", []]] + subs
+                        if also:
+                            pre = pre + [["set_ref", subs[0][2], x, 8]]      # an earlier sub space overrides the name
+                        mref = [["set_mref", x, 10]]
+                        have = (mref if glob == "before" else []) + [family_member(k1, holder, x)] \
+                            + (mref if glob == "after" else [])
+                        arrivals = [(k2, [family_member(k2, "A", x, 2)]) for k2 in ("cells", "ref", "space") if k2 != k1]
+                        if k1 != "cells":
+                            arrivals.append(("cells by rename", [["new_cells", "A", "p", F(0, 2)], ["rename_cells", "A", "p", x]]))
+                        for k2, arr in arrivals:
+                            # the request, the re-deriving edits, the request again, deletion of what the base may hold
+                            ops = pre + have + arr + rederive + [arr[-1]] + rederive[:2]
+                            out.append(("%s, %s holds a %s%s%s; %s arrives in the base" % (
+                                shape, holder, k1, {"none": "", "after": ", model-level reference created afterwards",
+                                                    "before": ", model-level reference created before"}[glob],
+                                ", an earlier sub space overrides the name" if also else "", k2),
+                                [list(o) for o in ops]))
+    return out
+
+
+def run_family(out, stats, fam, hooks_factory, cfg, what, max_failures=6):
+    """run the programs of a scenario family through a property's hooks"""
+    refused = 0
+    for label, ops in fam:
+        sub = core.Outcome()
+        st = collections.Counter()
+        run_one([list(o) for o in ops], sub, st, hooks_factory(), cfg)
+        merge(out, sub)
+        refused += bool(sum(v for k, v in st.items() if k.startswith("rejected:")))
+        stats[what + "_scenarios"] += 1
+        if len([f for f in out.failures if not f.get("key")]) >= max_failures:
+            break
+    stats[what + "_refused"] = refused
+    return refused
+
+
 # ----------------------------------------------------------------------------- generic engine
 
 class Hooks:
@@ -609,7 +728,7 @@ def run_one(ops, out, stats, hooks, cfg, rng=None, n_ops=0, seed_ops=None, gen=N
     hooks.nontrivial = False
     focus = (2 if rng.random() < 0.5 else None) if rng is not None else None
     if rng is not None and not ops and gen is not None:
-        ops += clash_prefix(rng)
+        ops += clash_prefix(rng, cfg)
     elif rng is not None and not ops:
         ops += [list(o) for o in (seed_ops if seed_ops is not None else [["set_mref", "u", 11], ["set_mref", "r", 12]])]
         ops += motif(rng, pool=motifs_for(cfg))
